@@ -17,7 +17,8 @@
 (*              list with the same elements, an embedded object / reference*)
 (*              value is passed through; CIMInstance: path.copy(),         *)
 (*              CIMClass: copy.copy(path); NocaseDict: new dict same items *)
-(*   copy.copy  new cell, all slots shared                                 *)
+(*   copy.copy  new cell, all slots shared (a NocaseDict has a single slot,*)
+(*              its item storage: the shallow copy is an alias of it)      *)
 (*   deepcopy / pickle   everything reachable is new                       *)
 (* then Mutate(p, v): the cell reached from the COPY along kid path p is   *)
 (* changed in place ("set": content replaced, "drop": first kid removed).  *)
@@ -142,7 +143,7 @@ MidKids(h, kind, ks, i, acc) ==
 
 CopyBy(m, h, r) ==
   CASE m = "copy" -> Mid(h, r)
-    [] m = "copy.copy" -> Shallow(h, r)
+    [] m = "copy.copy" -> IF h[r].t = "D" THEN <<h, r>> ELSE Shallow(h, r)
     [] OTHER -> Deep(h, r)            \* deepcopy, pickle round trip
 
 (* ---- abstract state, paths ---- *)
@@ -192,7 +193,10 @@ Mutate(p, v) ==
      /\ IF v = "set" THEN heap' = [heap EXCEPT ![c].val = "mut" \o ToString(Len(hist.muts))]
         ELSE /\ heap[c].kids # <<>>
              /\ heap' = [heap EXCEPT ![c].kids = Tail(@)]
-     /\ hist' = [hist EXCEPT !.muts = Append(@, [steps |-> st, v |-> v])]
+     /\ hist' = [hist EXCEPT !.muts = Append(@, [steps |-> st, v |-> v,
+                                               key |-> IF v = "drop"
+                                                       THEN heap[c].kids[1].key
+                                                       ELSE ""])]
      /\ allmust' = (allmust /\ MustIndep(hist.m, RootKind(hist.root), st))
   /\ UNCHANGED <<orig, cpy, abs0>>
 
